@@ -779,9 +779,19 @@ def symmetric_rcm(A):
     >>> # plt.spy(symmetric_rcm(S),marker='.')
 
     """
-    _dummy_root, order, _dummy_level = pseudo_peripheral_node(A)
+    _dummy_root, order, level = pseudo_peripheral_node(A)
 
-    p = order[::-1]
+    # the traversal only reaches the component of its root: keep the reached
+    # part of the ordering and traverse the remaining components in turn
+    reached = level >= 0
+    order = list(order[:np.count_nonzero(reached)])
+    while len(order) < A.shape[0]:
+        seed = np.where(~reached)[0][0]
+        comp_order, comp_level = breadth_first_search(A, seed)
+        order.extend(comp_order[:np.count_nonzero(comp_level >= 0)])
+        reached |= comp_level >= 0
+
+    p = np.array(order[::-1], dtype=np.intp)
 
     return A[p, :][:, p]
 
